@@ -162,7 +162,15 @@ func (o *ObjectSchema) unserializeToStruct(rawData map[string]any) (any, error) 
 	for key, value := range rawData {
 		val := value
 		elem := reflectedValue.Elem()
-		field := elem.FieldByIndex(o.fieldCache[key].Index)
+		// A field promoted from an embedded pointer to a struct cannot be reached in the new, empty value.
+		field, err := elem.FieldByIndexErr(o.fieldCache[key].Index)
+		if err != nil {
+			return nil, &ConstraintError{
+				"Field cannot be set",
+				[]string{key},
+				err,
+			}
+		}
 		f := field
 		v := reflect.ValueOf(val)
 		var recoveredError error
@@ -278,11 +286,13 @@ func (o *ObjectSchema) extractPropertyValue(propertyID string, v reflect.Value, 
 
 func (o *ObjectSchema) getFieldReflection(propertyID string, v reflect.Value, property *PropertySchema) *reflect.Value {
 	field := o.fieldCache[propertyID]
-	var val reflect.Value
 	if v.Kind() == reflect.Pointer {
-		val = v.Elem().FieldByName(field.Name)
-	} else {
-		val = v.FieldByName(field.Name)
+		v = v.Elem()
+	}
+	val, err := v.FieldByIndexErr(field.Index)
+	if err != nil {
+		// The field is promoted from an embedded pointer to a struct that is nil: it is not set.
+		return nil
 	}
 	if val.Kind() == reflect.Pointer {
 		if val.IsNil() {
